@@ -1,6 +1,19 @@
 // Content of module crate::cpu::verif_hooks (compiled only with --cfg koge29_verif).
 // Being a child of `cpu` it can call every pub(in super::super) handler and read private fields.
 
+// message capture (hook lines in src/cpu/messages.rs): native replay / bounded stand-ins read the log;
+// under Kani the sending functions are stubbed and this is never reached
+#[cfg(not(kani))]
+thread_local! {
+    pub static MESSAGES: std::cell::RefCell<Vec<String>> = std::cell::RefCell::new(Vec::new());
+}
+#[cfg(not(kani))]
+pub fn capture_message(m: &String) {
+    MESSAGES.with(|v| v.borrow_mut().push(m.clone()));
+}
+#[cfg(kani)]
+pub fn capture_message(_m: &String) {}
+
 #[allow(dead_code, unused_variables, unused_mut)]
 pub mod isa {
     include!(concat!(env!("KOGE29_VERIF_DIR"), "/spec/isa.rs"));
